@@ -72,3 +72,21 @@ func TestDev(t *testing.T) {
 		}
 	}
 }
+
+// TestAsanDriver: C17_ASAN_BIN=<asan build of cmd/c17> [C17_ASAN_CASES=<n>] go test -tags verif -run AsanDriver -v
+func TestAsanDriver(t *testing.T) {
+	bin := os.Getenv("C17_ASAN_BIN")
+	if bin == "" {
+		t.Skip("C17_ASAN_BIN not set")
+	}
+	dir := t.TempDir()
+	res := runAsan(bin, 1, dir)
+	fmt.Printf("evidence: %v\ncounters: %v\nviolations: %d\n", res.evidence, res.counters, len(res.viols))
+	seen := map[string]int{}
+	for _, v := range res.viols {
+		seen[v.res.Monitor+" | "+core.Trunc(v.res.Signature, 90)]++
+	}
+	for k, n := range seen {
+		fmt.Printf("%4d %s\n", n, k)
+	}
+}
